@@ -57,7 +57,12 @@ func Plan(prop, tier string) []Mode {
 	case "C15":
 		return []Mode{seq("seq", pick(1008, 500008), pick(64, 4000))}
 	case "C16":
-		return []Mode{seq("seq", pick(10000, 5000000), pick(700, 40000))}
+		ms := []Mode{seq("seq", pick(10000, 5000000), pick(700, 40000))}
+		if !q {
+			// 2^32 + 2^22 values through ONE queue (case 0) and ONE stack (case 1): several minutes each
+			ms = append(ms, Mode{Name: "marathon", Build: "plain", Cases: 2, Batch: 1, Par: 2, WatchdogS: 7200, HangIs: "inconclusive"})
+		}
+		return ms
 	case "C20":
 		ms := []Mode{seq("seq", pick(928, 100528), pick(32, 1000))}
 		if !q {
